@@ -180,6 +180,22 @@ PROPS = {
         "not_decided": ["slices longer than the bound (needs an inductive invariant over &mut &mut [IoSlice], outside Verus' subset)",
                         "plain (non-vectored) header write goes through std's Write::write_all (trusted std, A1)"],
     },
+    "C17": {
+        "level": "other",
+        "design_ref": "DESIGN.md §3 C17",
+        "technique": "Kani contract harnesses on the container Reader's state machine put directly into its block-reading state: every truncation offset of a one-block file, framing corruptions, Broken/EOF latches, Take contracts (null codec)",
+        "level_text": "Bounded deductive check (labelled bounded): for a file body of one block with one value - header varints in two-byte form so that cuts fall inside varints - EVERY truncation "
+                      "offset, every sync marker and value are explored through the real deserialize_next: results are a prefix of the written values, then at most one error, then end of stream "
+                      "for all later calls; corrupted sync bytes and size/count disagreements are errors; the Broken state and the EOF latch are complete over the state enum; the slice Take "
+                      "contract (sub-reader limited to block size, leftover data rejected, resume exactly after the block) is complete for inputs up to 6 bytes and any block size.",
+        "level_note": "Null codec and slice input only in the quick tier; compressed codecs and the snappy CRC are external (C05); I/O errors injected inside a read are not modelled; the reader is "
+                      "constructed past the file header (header parsing is serde_json, out of reach). A1 A4 A8 A9.",
+        "assumptions": [A1, A4, A6, A7, A8, A9],
+        "explanation": "One-block files suffice to visit every state transition of the reader (NotInBlock -> InBlock -> leaving block -> NotInBlock/EOF, and every `?` exit through Broken); "
+                       "multi-block files repeat the same transitions from the same state shape.",
+        "not_decided": ["compressed codecs, snappy CRC32 (external libraries)", "I/O errors injected at every read call of a streaming reader",
+                        "files with several blocks end-to-end (the per-transition argument is not machine-checked as an induction)"],
+    },
     "C18": {
         "level": "proof",
         "design_ref": "DESIGN.md §3 C18",
